@@ -36,6 +36,11 @@ ANCHORS = [
 ]
 
 
+# documented signature of generic_message (docs/usage/cipdriver.rst, API reference): positional order and defaults
+GM_ORDER = ["service", "class_code", "instance", "attribute", "request_data", "data_type", "name", "connected", "unconnected_send", "route_path"]
+GM_DEFAULTS = {"attribute": b"", "request_data": b"", "data_type": None, "name": "generic", "connected": True, "unconnected_send": False, "route_path": True}
+
+
 def width(v):
     return 8 if v <= 0xFF else 16 if v <= 0xFFFF else 32
 
@@ -237,8 +242,14 @@ def run(ctx):
                             exp_data = req_data + refpath.route_bytes(list(tgt_route), pad_after_size=True)
                 before = len(exp_dev.journal)
                 all_before = sum(len(d_.journal) for d_ in set(routes.values()) | {front})
-                st, tag = b.call("generic_message", drv.generic_message, **kwargs)
+                # the documented signature, by keyword or with the first k parameters given positionally (defaults filled in): the same call
+                npos = rng.choice([0, 0, 0, 3, 4, 5, 6, 7, 8, 9, 10])
+                pargs, kw_ = [], dict(kwargs)
+                for nm_ in GM_ORDER[:npos]:
+                    pargs.append(kw_.pop(nm_) if nm_ in kw_ else GM_DEFAULTS[nm_])
+                st, tag = b.call("generic_message", drv.generic_message, *pargs, **kw_)
                 res.ev()
+                res.seen("positional-args", npos)
                 res.seen(transport, rp_form, width(cls_v), width(inst_v), width(attr_v) if use_attr else 0, n % 2, status == 0, dt is None, len(hops))
                 desc_txt = f"generic_message(service={service:#x}, class={cls_v:#x}, instance={inst_v:#x}, attribute={(attr_v if use_attr else None)!r}, {n}B data, {transport}, route_path={rp_form}, path={path!r})"
                 if st != "ok":
